@@ -108,6 +108,7 @@ pub fn search(seed: u64, n: u64) {
                 // recognisable special configurations of the input (as for C01): a vertex of one sub-path exactly on / within 0.1 of another's boundary
                 let singles: Vec<Vec<P>> = set.iter().map(|p| vec![p.clone()]).collect();
                 let contact = contact_suffix_all(&singles.iter().collect::<Vec<_>>());
+                let contact = if contact.is_empty() && k >= 3 { close_crossings_suffix(&singles.iter().collect::<Vec<_>>()) } else { contact };
                 let class = if k == 1 { "single_simple_shape".to_string() } else { format!("set_of_{}.{}{}", k, if mixed { "mixed_directions" } else { "same_direction" }, contact) };
                 stats.count(&format!("input.{}", class));
                 for kd in &kinds { stats.count(&format!("kind.{}", kd)); }
@@ -116,6 +117,9 @@ pub fn search(seed: u64, n: u64) {
                 let overlap = o.flat.iter().enumerate().any(|(i, q)| q.iter().any(|p| o.flat.iter().enumerate().any(|(j, r)| i != j && winding(*p, r) != 0)));
                 if overlap { stats.count("input.shapes_overlap"); }
                 stats.case(&format!("{} {:?}", class, set), overlap);
+                // sets in general position (no contact class): the failing key also names the input itself, so that a recorded
+                // failure is one specific input and any other input still alarms
+                let class = if k >= 2 && contact.is_empty() { format!("{}.input_{:016x}", class, fnv(&format!("{:?}", set))) } else { class };
                 check_set(&mut stats, &mut rng, &set, &class, 150, 150);
             }
         }
